@@ -293,15 +293,23 @@ def run(v, tier, seed):
         hist[mode] = (rows_h, sh)
 
     # ------------------------------------------------------------------ TLC
+    def settle(fut, default=None):
+        """result of a job; once the real code has been seen to break the property, a failing later stage must not turn the verdict into ERROR"""
+        try: return fut.result()
+        except vlib.MachineryError as ex:
+            if not v.violations: raise
+            vlib.log("NOTE property=C05 a later stage failed after the violation(s) above: %s" % str(ex)[:300])
+            return default
+
     guards_shown = []; f25_lines = 0; lines_validated = 0; cases_nonempty = 0; drift_lines = 0; route_lines = 0; route_hist = 0; replayed = 0
     trav_counts = {"cases": 0, "nonempty": 0, "multi": 0, "f25": 0, "lookup": 0, "samedepth": 0}
     with cf.ThreadPoolExecutor(max_workers=8) as ex:
         futs_tt = []
         if su:
-            for k in uni_shards:
-                futs_tt.append(ex.submit(trav_trace, "%s.%d.ndjson" % (uni_prefix, k), uni, (k, uni_nsh)))
+            for k in uni_shards:      # (a harness that found 25 violating cases stops early: then there are fewer files)
+                if "%s.%d.ndjson" % (uni_prefix, k) in su["files"]: futs_tt.append(ex.submit(trav_trace, "%s.%d.ndjson" % (uni_prefix, k), uni, (k, uni_nsh)))
         if sw:
-            for k in range(wide_files): futs_tt.append(ex.submit(trav_trace, "%s.%d.ndjson" % (wide_prefix, k), "none"))
+            for p in sw["files"]: futs_tt.append(ex.submit(trav_trace, p, "none"))
         futs_rt = []
         for mode, (rows_h, sh) in hist.items():
             if sh:
@@ -314,7 +322,9 @@ def run(v, tier, seed):
 
         nviol = 0
         for f in futs_tt:
-            s, bad, path = f.result()
+            res = settle(f)
+            if res is None: continue
+            s, bad, path = res
             lines_validated += s["lines"]; f25_lines += s["f25_twice"]
             for k in trav_counts: trav_counts[k] += s[k]
             for x in bad:
@@ -329,7 +339,9 @@ def run(v, tier, seed):
                     drift_lines += 1; v.drift += 1
                     if drift_lines <= 3: vlib.log("DRIFT property=C05 traversal case %s: the callbacks came in another order than in Traversal.tla: code %s model %s" % (x["i"], x["v"], x["model"]))
         for f in futs_rt:
-            ok, maxline, nl, path, mode = f.result()
+            res = settle(f)
+            if res is None: continue
+            ok, maxline, nl, path, mode = res
             route_lines += nl
             if not ok:
                 # the history with the first unexplained line
@@ -339,11 +351,16 @@ def run(v, tier, seed):
                 v.violation("routing history (%s): what the clients received is not what Route.tla allows: first unexplained line %d of %s: %s" % (mode, maxline, path, ev[maxline - 1].strip()[:300] if maxline - 1 < len(ev) else "end of log"),
                             {"trace": path, "line": maxline, "history": [json.loads(l) for l in ev[start:end]], "spec": "spec/Traversal/RouteTrace.tla"}, tag="trace")
         for f in futs_gen:
-            tag, st, rows_r, sr, smp = f.result()
+            res = settle(f)
+            if res is None: continue
+            tag, st, rows_r, sr, smp = res
             judge_rows(rows_r, "replay of a TLC behaviour of Route.tla")
             if sr:
                 replayed += sr["histories"]
-                ok, maxline, nl, path, _ = route_trace(sr["files"][0], "replay")
+                try: ok, maxline, nl, path, _ = route_trace(sr["files"][0], "replay")
+                except vlib.MachineryError:
+                    if not v.violations: raise
+                    continue
                 route_lines += nl
                 if not ok:
                     ev = [l for l in open(path)]
@@ -352,10 +369,10 @@ def run(v, tier, seed):
                 notes["harness_runs"][-1]["path_cover"] = st
             samples += [{"kind": "behaviour of Route.tla replayed on the real server", "steps": s["steps"]} for s in smp[:1]]
         mc_cases = 0
-        for f in futs_mc: mc_cases += f.result()["cases"]
-        route_states = sum(f.result() for f in futs_rmc)
-        for f in futs_g: guards_shown.append(f.result())
-        ncorr = f_corr.result() if f_corr else 0
+        for f in futs_mc: mc_cases += (settle(f) or {"cases": 0})["cases"]
+        route_states = sum((settle(f) or 0) for f in futs_rmc)
+        for f in futs_g: guards_shown.append(settle(f))
+        ncorr = (settle(f_corr) or 0) if f_corr else 0
 
     # the space: every shard complete
     if su and not v.violations:
@@ -376,13 +393,19 @@ def run(v, tier, seed):
         samples.append({"kind": "routing history (events as logged: commands sent, Messages received)", "events": ls[:25]})
     except Exception:
         pass
-    for p in made:
-        try: os.remove(p)
-        except OSError: pass
-    for p in os.listdir(os.path.dirname(W("x"))):
-        if p.startswith("%s_%d_" % (tier, os.getpid())):
-            try: os.remove(os.path.join(os.path.dirname(W("x")), p))
+    if v.violations:
+        by = {}
+        for _, p in v.violations:
+            k = re.sub(r"^violation-(.*)-\d+\.json$", r"\1", os.path.basename(p)); by[k] = by.get(k, 0) + 1
+        vlib.log("NOTE property=C05 reports by stage (monitor = the harness's direct monitor, line = TLC LineOK on a recorded traversal, trace / replay = TLC RouteTrace, hang / crash = watchdog): %s; the recorded files stay in %s" % (by, os.path.dirname(W("x"))))
+    else:
+        for p in made:
+            try: os.remove(p)
             except OSError: pass
+        for p in os.listdir(os.path.dirname(W("x"))):
+            if p.startswith("%s_%d_" % (tier, os.getpid())):
+                try: os.remove(os.path.join(os.path.dirname(W("x")), p))
+                except OSError: pass
 
     sends = sum(sh["sends"] for _, sh in hist.values() if sh)
     cov = {"states": tot["states"], "transitions": tot["transitions"],
